@@ -126,10 +126,10 @@ theorem match_plus_run {n : Nat} {D : CharClass} {g : Bool} :
     simpa [decHi] using ih
 
 /-- the alternative `a` is *literal prefix* + `.+`: its flattened sequence is one-character
-classes accepting `pre`, then a `+` repetition of "any character but newline" -/
+classes accepting `pre`, then a `+` (or `*`) repetition of "any character but newline" -/
 def isPrefixFamily (pre : List Char) (a : Re) : Bool :=
   match (spine a).reverse with
-  | .rep (.cls D) 1 none _ :: rsp => litSpine pre rsp.reverse && isDot D
+  | .rep (.cls D) lo none _ :: rsp => decide (lo ≤ 1) && litSpine pre rsp.reverse && isDot D
   | _ => false
 
 theorem match_prefixFamily {n : Nat} {pre : List Char} {a : Re} (h : isPrefixFamily pre a = true)
@@ -137,15 +137,15 @@ theorem match_prefixFamily {n : Nat} {pre : List Char} {a : Re} (h : isPrefixFam
     Match n a (pre ++ (rest ++ t)) t := by
   unfold isPrefixFamily at h
   split at h
-  · rename_i D g rsp hsp
-    simp only [Bool.and_eq_true] at h
-    have hs : spine a = rsp.reverse ++ [.rep (.cls D) 1 none g] := by
+  · rename_i D lo g rsp hsp
+    simp only [Bool.and_eq_true, decide_eq_true_eq] at h
+    have hs : spine a = rsp.reverse ++ [.rep (.cls D) lo none g] := by
       have := congrArg List.reverse hsp
       simpa using this
     rw [match_iff_spine, hs, matchL_append]
-    refine ⟨rest ++ t, matchL_litSpine h.1 _, ?_⟩
+    refine ⟨rest ++ t, matchL_litSpine h.1.2 _, ?_⟩
     rw [matchL_singleton]
-    exact match_plus_run rest hne (fun c hc => isDot_mem h.2 (fun e => hnl (e ▸ hc))) t 1 (Nat.le_refl _)
+    exact match_plus_run rest hne (fun c hc => isDot_mem h.2 (fun e => hnl (e ▸ hc))) t lo h.1.1
   · cases h
 
 /-! ## the frame `^ … $` -/
